@@ -124,10 +124,97 @@ def direct_oracle(orders, reqs, outs):
     return None
 
 
+class _Shared:
+    def __init__(self):
+        self.version, self.schema, self.events = 0, set(), []
+
+
+class SharedSet(MigrationSet):
+    """one of several migration-set objects over ONE store (two application instances migrating at start-up, a request
+    made from inside a hook of another): every step records the version that was recorded at the moment it ran"""
+    def __init__(self, sh, orders, name):
+        self.sh, self.orders, self.name = sh, orders, name
+        self.saves, self.hook = 0, None
+
+    def migrations(self):
+        sh, name = self.sh, self.name
+
+        class M(Migration):
+            def __init__(self, n):
+                self.n = n
+
+            @property
+            def order(self):
+                return self.n
+
+            def up(self):
+                sh.events.append((name, 'U', self.n, sh.version))
+                sh.schema.add(self.n)
+
+            def down(self):
+                sh.events.append((name, 'D', self.n, sh.version))
+                sh.schema.discard(self.n)
+        return [M(n) for n in self.orders]
+
+    def save_applied_number(self, number):
+        self.sh.version = number
+        self.saves += 1
+        if self.hook and self.saves == self.hook[0]:
+            h, self.hook = self.hook[1], None
+            h()
+
+    def last_applied(self):
+        return self.sh.version
+
+
+def _nested_requests(ctx, out):
+    """a request of a second migrator object over the same store runs to completion between two steps of a whole-set
+    request of the first (complete enumeration over declaration orders of {1,2,3}, start versions, the step after which
+    it happens and the second request): every step that runs is gated by the version recorded at that moment"""
+    reqs_b = [('U', None), ('D', None)] + [(d, n) for d in 'UD' for n in (1, 2, 3)]
+    for orders in itertools.permutations([1, 2, 3]):
+        for start in range(4):
+            for da in 'UD':
+                for k in (1, 2, 3):
+                    for db, nb in reqs_b:
+                        sh = _Shared()
+                        a, b = SharedSet(sh, list(orders), 'A'), SharedSet(sh, list(orders), 'B')
+                        for n in range(1, start + 1):
+                            Migrator(a).up(n)
+                        sh.events, a.saves = [], 0
+                        a.hook = (k, lambda b=b, db=db, nb=nb: (Migrator(b).up if db == 'U' else Migrator(b).down)(nb))
+                        try:
+                            (Migrator(a).up if da == 'U' else Migrator(a).down)()
+                            err = None
+                        except Exception as e:
+                            err = type(e).__name__
+                        out.evaluations += 1
+                        out.count('nested-request')
+                        prob = None
+                        if err:
+                            prob = 'the request raised %s although nothing was injected' % err
+                        for who, d, n, v in sh.events:
+                            if d == 'U' and not n > v:
+                                prob = 'up step %d of migrator %s ran although the recorded version was %d' % (n, who, v)
+                            if d == 'D' and not n <= v:
+                                prob = 'down step %d of migrator %s ran although the recorded version was %d' % (n, who, v)
+                        if prob:
+                            f = Failure('oracle', {'orders': list(orders), 'start_version': start,
+                                                   'request_A': 'whole-set ' + ('up' if da == 'U' else 'down'),
+                                                   'request_B': '%s %s, run to completion after step %d of A' % (
+                                                       'up' if db == 'U' else 'down', 'whole-set' if nb is None else nb, k),
+                                                   'steps (who, direction, number, version recorded when it ran)': sh.events},
+                                        sh.events, None, prob, 'Vakt.C18.gated_and_ordered')
+                            f.signature = 'nested-request'
+                            out.failures.append(f)
+                            return
+
+
 def run(ctx):
     out = Outcome()
     rng = ctx.rng
     lines, meta = [], []
+    _nested_requests(ctx, out)
 
     def add_case(orders, reqs, tag):
         outs = run_recording(orders, reqs)
